@@ -207,19 +207,19 @@ impl AsyncWrite for Counting {
     }
 }
 
-extern "C" fn c_write_coil(_i: u16, _v: bool, _db: *mut rodbus_ffi::Database, _ctx: *mut c_void) -> ffi::WriteResult {
+pub(crate) extern "C" fn c_write_coil(_i: u16, _v: bool, _db: *mut rodbus_ffi::Database, _ctx: *mut c_void) -> ffi::WriteResult {
     ffi::WriteResultFields { success: false, exception: ffi::ModbusException::IllegalFunction, raw_exception: 0 }.into()
 }
-extern "C" fn c_noop(_ctx: *mut c_void) {}
-extern "C" fn c_configure(db: *mut rodbus_ffi::Database, _ctx: *mut c_void) {
+pub(crate) extern "C" fn c_noop(_ctx: *mut c_void) {}
+pub(crate) extern "C" fn c_configure(db: *mut rodbus_ffi::Database, _ctx: *mut c_void) {
     unsafe {
         ffi::rodbus_database_add_holding_register(db, 0, 0xBEEF);
     }
 }
-extern "C" fn c_allow_range(_u: u8, _r: ffi::AddressRange, _role: *const c_char, _ctx: *mut c_void) -> c_int {
+pub(crate) extern "C" fn c_allow_range(_u: u8, _r: ffi::AddressRange, _role: *const c_char, _ctx: *mut c_void) -> c_int {
     ffi::Authorization::Allow.into()
 }
-extern "C" fn c_allow_index(_u: u8, _i: u16, _role: *const c_char, _ctx: *mut c_void) -> c_int {
+pub(crate) extern "C" fn c_allow_index(_u: u8, _i: u16, _role: *const c_char, _ctx: *mut c_void) -> c_int {
     ffi::Authorization::Allow.into()
 }
 
